@@ -144,6 +144,12 @@ def setup(rec, tier):
             m = f"{E['_name']}.planar_moments_inertia/parallel-axis-terms-swapped"
         rec.close(f"{E['_name']}.planar_moments_inertia", res, np.array(E["planar"]), REL * mag, m,
                   lambda: wit(s))
+        if not np.any(c) and res.shape == (3,):
+            # centred at the origin each moment is a single product: the small one of a needle (about its long axis) is as
+            # much a defining integral as the large one, and is judged relative to itself
+            want = np.array(E["planar"][:2], float)
+            rec.check(f"{E['_name']}.planar_moments_inertia", bool(np.all(np.abs(res[:2] - want) <= 1e-12 * want)),
+                      f"{E['_name']}.planar_moments_inertia/centred-moment-not-accurate-relative-to-itself", lambda: dict(wit(s), got=res, want=want))
 
     def polar_post(s, args, kwargs, result, token):
         E = expected(s)
@@ -164,6 +170,14 @@ def setup(rec, tier):
         mag = E["volume"] * (max(E["_ax"]) ** 2 + float(np.dot(E["_c"], E["_c"])))
         rec.close(f"{E['_name']}.inertia_tensor", np.asarray(result, float), E["inertia"], REL * mag,
                   mech(s, "inertia_tensor"), lambda: wit(s))
+        r = np.asarray(result, float)
+        if not np.any(E["_c"]) and r.shape == (3, 3):
+            # centred at the origin every principal moment is V/5 times a sum of two squares: the small moment of a needle
+            # (about its long axis) is judged relative to itself, not to the large ones
+            want = np.diag(E["inertia"])
+            rec.check(f"{E['_name']}.inertia_tensor", bool(np.all(np.abs(np.diag(r) - want) <= 1e-12 * want)),
+                      f"{E['_name']}.inertia_tensor/centred-principal-moment-not-accurate-relative-to-itself",
+                      lambda: dict(wit(s), got=np.diag(r), want=want))
 
     for cls in (cs.Circle, cs.Ellipse):
         contracts.hook(cls, "area", post=scalar("area", "area"))
